@@ -62,13 +62,36 @@ Proof.
     destruct k1 as [atoms|q1 a1 k1].
     + destruct r as [|k2 r'].
       * apply andb_true_iff in Hk as [Hpl Hne]. exists (atoms_str atoms).
-        split; [apply atoms_text_plain; exact Hpl|]. split; [|split; reflexivity].
+        split; [apply (atoms_plain_read [] _ _ Hpl); apply atoms_text_plain; exact Hpl|]. split; [|split; reflexivity].
         intros E. rewrite E in Hne. discriminate Hne.
       * cbn [forallb plain_tree] in Hk. discriminate Hk.
     + split; [reflexivity|]. apply (reads_kids_pump (EElem q1 a1 k1 :: r)). apply Hkids. exact Hk.
 Qed.
 
 (* ---------------------------------------------------------------- the expected tree is plain *)
+(* ---------------------------------------------------------------- instances without QName values *)
+Lemma noq_list t l : noq (VList t l) = forallb noq l.
+Proof. induction l as [|x r IH]; [reflexivity|]. cbn [forallb]. rewrite <- IH. reflexivity. Qed.
+Lemma noq_obj cl fs : noq (VObj cl fs) = forallb (fun kv => noq (snd kv)) fs.
+Proof. induction fs as [|[k x] r IH]; [reflexivity|]. cbn [forallb snd]. rewrite <- IH. reflexivity. Qed.
+Lemma noq_field cl fs var : noq (VObj cl fs) = true -> noq (field_of fs var) = true.
+Proof.
+  rewrite noq_obj. intros H. unfold field_of. destruct (assoc (v_name var) fs) as [x|] eqn:E; [|reflexivity].
+  rewrite forallb_forall in H. apply assoc_in in E. apply (H _ E).
+Qed.
+Lemma noq_item t l y : noq (VList t l) = true -> In y l -> noq y = true.
+Proof. rewrite noq_list. intros H Hy. rewrite forallb_forall in H. apply (H y Hy). Qed.
+Lemma noq_occ var x y : noq x = true -> In y (occ var x) -> noq y = true.
+Proof.
+  intros Hx Hy. unfold occ in Hy.
+  destruct x as [|p|t l|k f|? ? ? ? ?|? ? ?|?]; try destruct Hy.
+  all: destruct (v_tokens_factory var).
+  all: try (destruct Hy as [<-|[]]; exact Hx).
+  - destruct l as [|z l']; [destruct Hy|]. destruct z; try (destruct Hy as [<-|[]]; exact Hx).
+    apply (noq_item t _ y Hx Hy).
+  - apply (noq_item t l y Hx Hy).
+Qed.
+
 Section Plain.
   Variable c : conv.
   Variable u : universe.
@@ -82,12 +105,6 @@ Section Plain.
   Notation e_data := (e_data c u).
   Notation e_prim := (e_prim c u).
   Notation wfr := (wfr u).
-
-  Lemma e_atoms_plain fmt x : atoms_plain (e_atoms fmt x) = true.
-  Proof.
-    unfold RoundtripGen.e_atoms, atoms_plain. destruct x; try reflexivity.
-    rewrite forallb_map'. induction l; [reflexivity|]. cbn [forallb]. exact IHl.
-  Qed.
 
   Lemma NoDup_nodup_by l : NoDup l -> nodup_by str_eqb l = true.
   Proof.
@@ -104,8 +121,8 @@ Section Plain.
   Proof.
     intros Hs. destruct (e_data_spec c u ok t fmt y Hs) as [Hd Hat]. rewrite Hd.
     destruct (y_text c u fmt y) as [|ch s] eqn:Ey; [exact I|].
-    rewrite e_atoms_plain. cbn [andb].
-    pose proof (atoms_text_plain _ (e_atoms_plain fmt y)) as Hp. rewrite Hat in Hp. inversion Hp as [E].
+    rewrite (e_atoms_vshape_plain c u ok t fmt y Hs). cbn [andb].
+    pose proof (atoms_text_plain _ (e_atoms_vshape_plain c u ok t fmt y Hs)) as Hp. rewrite Hat in Hp. inversion Hp as [E].
     destruct (atoms_str (e_atoms fmt y)); [discriminate E|reflexivity].
   Qed.
 
@@ -116,19 +133,19 @@ Section Plain.
     destruct k1 as [atoms|? ? ?]; [|destruct H]. destruct r; [exact H|destruct H].
   Qed.
 
-  Lemma plain_obj : forall n cl o qn, wfr cl -> fits n cl o = true -> plain_tree (eobj n qn o) = true.
+  Lemma plain_obj : forall n cl o qn, wfr cl -> fits n cl o = true -> noq o = true -> plain_tree (eobj n qn o) = true.
   Proof.
-    induction n as [|n IH]; intros cl o qn Hwf Hfit; [discriminate|].
+    induction n as [|n IH]; intros cl o qn Hwf Hfit Hnq; [discriminate|].
     destruct (fits_inv c u ok py_isspace n cl o Hfit) as [fs [m [-> [Hm [Hnames [Hfa [Hfe Hft]]]]]]].
     destruct (wfr_inv u cl Hwf) as [m' [Hm' [Hmc [Hwc Hnest]]]]. rewrite Hm in Hm'. inversion Hm'; subst m'. clear Hm'.
     cbn [RoundtripGen.eobj]. rewrite Hm. cbn [plain_tree].
     apply andb_true_iff. split; [apply andb_true_iff; split|].
     - (* attribute values are text *)
-      apply forallb_forall. intros ea Hea. apply in_flat_map in Hea as [var [_ Hea]].
-      unfold RoundtripGen.e_attr in Hea.
-      destruct (field_of fs var); try destruct Hea;
-        (destruct (is_array _ && negb (py_truthy _)); [destruct Hea|];
-         destruct (ign && opt_skip var _); [destruct Hea|]; destruct Hea as [<-|[]]; apply e_atoms_plain).
+      apply forallb_forall. intros ea Hea. apply in_flat_map in Hea as [var [Hvar Hea]].
+      destruct (wf_class_avar m var Hwc Hvar) as [Hwa Hina].
+      pose proof (Hfa _ Hina) as Hfv. cbn [snd] in Hfv.
+      destruct (attr_cases c u ok ign var _ Hwa Hfv) as [[E _]|[t [E [_ [Hs _]]]]]; rewrite E in Hea; [destruct Hea|].
+      destruct Hea as [<-|[]]. cbn [snd]. apply (e_atoms_vshape_plain c u ok t _ _ Hs).
     - (* attribute names are distinct *)
       apply NoDup_nodup_by. rewrite <- (map_map fst clark_of).
       assert (Hk : NoDup (map (fun b : XmlNs.qname * list atom => clark_of (fst b))
@@ -167,6 +184,10 @@ Section Plain.
         { intros e He. apply in_flat_map in He as [[var x] [Hvv He]]. cbn [fst snd] in He.
           destruct (pair_facts c u ok cl fs m Hwc Hmc Hnames n Hfe (var, x) Htx Hvv) as [Hvar [Hev [Hok0 _]]]. cbn [fst snd] in *.
           rewrite (e_field_occ c u ign m n var _ Hev) in He.
+          assert (Hnx : noq x = true).
+          { destruct (ps_src _ _ _ _ (class_pairs_fits c u ok _ _ cl fs m Hwc Hnames Hfe) (var, x) Hvv) as [_ [_ [Hw|[f0 [t0 [l0 [_ [_ [_ [El Hil]]]]]]]]]]; cbn [fst snd] in *.
+            - unfold pair_whole in Hw. cbn [fst snd] in Hw. rewrite Hw. apply (noq_field cl fs var Hnq).
+            - apply (noq_item t0 l0 x); [rewrite <- El; apply (noq_field cl fs var Hnq)|exact Hil]. }
           assert (Hitem : forall y, In y (occ var x) ->
                     (exists q a k, ienode c u ign n var y = EElem q a k) /\ plain_tree (ienode c u ign n var y) = true).
           { intros y Hy.
@@ -174,13 +195,15 @@ Section Plain.
             rewrite Forall_forall in Hok. specialize (Hok y Hy).
             pose proof Hev as [Hw Hin].
             unfold item_ok in Hok. unfold ienode.
-            destruct (wf_elem_inv var Hw) as [_ [_ [[k [Hty [Hcl Htf]]]|[t [Hty [Hst Hcl]]]]]].
+            pose proof (noq_occ var x y Hnx Hy) as Hny.
+            destruct (wf_elem_inv var Hw) as [_ [_ [[k [Hty [Hcl Htf]]]|[[t [Hty [Hst Hcl]]]|[Hty [_ Htf3]]]]]].
+            3:{ rewrite Htf3 in *. destruct (fits_item_qname c u ok _ var y Hty Hok) as [q1 [-> _]]. discriminate Hny. }
             - rewrite Htf in *. destruct (fits_item_class c u ok _ var k y Hty Hok) as [cl' [fs' [-> Hfk]]].
               cbn [RoundtripGen.e_item]. split.
               + destruct n as [|n']; [discriminate Hfk|].
                 destruct (fits_inv c u ok py_isspace n' k _ Hfk) as [fs'' [mk [E [Hmk _]]]]. inversion E; subst.
                 cbn [RoundtripGen.eobj]. rewrite Hmk. eauto.
-              + apply (IH k); [|exact Hfk]. apply (Hnest _ var k Hin (or_introl eq_refl) Hcl).
+              + apply (IH k); [|exact Hfk|exact Hny]. apply (Hnest _ var k Hin (or_introl eq_refl) Hcl).
             - destruct (v_tokens_factory var) as [tf|] eqn:Etf.
               + destruct (fits_tokens_inv c u ok py_isspace var tf y t Hty Hok) as [tp [l [-> [_ [Htk _]]]]].
                 split; [unfold RoundtripGen.e_prim; eauto|]. apply (plain_prim var t). apply vs_tokens. exact Htk.
